@@ -214,9 +214,13 @@ impl Entry {
     /// As `call_json`; `port` None = let the entry point use its default (only meaningful for Generic and Module),
     /// `retries` None = pass no timeout settings at all.
     pub fn call_json_opt(&self, ip: &IpAddr, port_opt: Option<u16>, retries: Option<usize>) -> GDResult<serde_json::Value> {
+        self.call_full(ip, port_opt, retries.and_then(timeout))
+    }
+
+    /// The most general form: optional port, explicit timeout settings.
+    pub fn call_full(&self, ip: &IpAddr, port_opt: Option<u16>, t: Option<TimeoutSettings>) -> GDResult<serde_json::Value> {
         let port = port_opt.unwrap_or(0);
         let addr = SocketAddr::new(*ip, port);
-        let t = retries.and_then(timeout);
         match self {
             Entry::Valve { engine, players, rules, check } => {
                 let g = valve::GatheringSettings {
